@@ -220,9 +220,10 @@ theorem C18_list_parts_refines_partial (H : Hashes) (dl : Nat) {s : State} (hi :
     the owner that names a part that was never uploaded (`InvalidPart`) or whose parts other than the last are below the
     minimum size (`EntityTooSmall`) is answered alike and changes nothing — the upload stays and can be completed later
     (before the repair the upload was consumed first: fs:failed-complete-consumes-upload, and a missing part was
-    `InternalError`: fs:complete-missing-part-internal-error). Partial — excluded: part lists other than 1..m
-    (fs:complete-requires-consecutive-parts, fs:complete-part-list-validation), the stale side-file cases
-    (fs:stale-metadata-after-complete, fs:stale-checksum-after-complete), fs:complete-into-missing-bucket -/
+    `InternalError`: fs:complete-missing-part-internal-error); the metadata and the checksums of an object it replaces
+    are replaced with it — by the upload's metadata, or none, and by no checksums (cf67827; before:
+    fs:stale-metadata-after-complete, fs:stale-checksum-after-complete). Partial — excluded: part lists other than 1..m
+    (fs:complete-requires-consecutive-parts, fs:complete-part-list-validation), fs:complete-into-missing-bucket -/
 theorem C18_complete_refines_partial (H : Hashes) (dl : Nat) {s : State} (hi : Inv s) {who : Who} {b k : Bytes}
     {u : UploadRef} {parts : Option (List (Option Int))} (hg : CompleteOk s who b k u parts) :
     (step H dl s (.completeMultipartUpload who b k u parts)).2 =
@@ -382,6 +383,14 @@ example : Good (run H0 4096 {} (demo.take 23)).1 (.uploadPart alice bka kX (some
     Good (run H0 4096 {} (demo.take 23)).1 (.listParts alice bka kX (some 9)) ∧
     Good (run H0 4096 {} (demo.take 23)).1 (.completeMultipartUpload alice bka kX none (some [some 1])) ∧
     Good (run H0 4096 {} (demo.take 23)).1 (.abortMultipartUpload alice bka kX (some 9)) := by decide
+/-- a complete that replaces an object which has metadata and a recorded checksum, by an upload without metadata, is
+    inside `Good` (and the object read afterwards has neither) -/
+example :
+    let ops : List Op := [.createBucket bka, .putObject bka kA [1] (some [([109], [118])]) { crc32 := some [1] } none,
+      .createMultipartUpload alice bka kA none, .uploadPart alice bka kA (some 1) 1 [2],
+      .completeMultipartUpload alice bka kA (some 1) (some [some 1]), .getObject bka kA none]
+    GoodRun H0 4096 {} ops ∧ (run H0 4096 {} ops).2.getLast? = some (.get [2] 1 none (some (etagOf H0 [2])) [] {}) := by
+  decide
 /-- the owner's failing completes are inside `Good`, are refused, and leave the upload in place -/
 example : Good (run H0 4096 {} (demo.take 25)).1 (demo.getD 25 .listBuckets) ∧
     (run H0 4096 {} (demo.take 28)).2.drop 25 = [.err .InvalidPart, .part (some (etagOf H0 [5])), .err .EntityTooSmall] ∧
